@@ -704,6 +704,26 @@ pub fn faults_cmd(args: &[String]) {
                     out.ev(&cc);
                 }
             }
+            "framepairs" => {
+                // multi-field: the frame's byte budget set to its maximum together with each chunk size boundary value
+                let enc = enc.expect("framepairs faults need a program");
+                let nb: Vec<&Field> = enc.fields.iter().filter(|f| f.name.ends_with(".nbytes")).collect();
+                for f in enc.fields.iter().filter(|f| f.name.ends_with(".size")) {
+                    let frame = f.name.split('.').next().unwrap_or("");
+                    let Some(fb) = nb.iter().find(|x| x.name == format!("{}.nbytes", frame)) else { continue };
+                    let cur = read_le(&bytes, f.off, 4);
+                    for v in boundary_values(4, cur) {
+                        for fv in [0xFFFF_FFFFu32, 0x7FFF_FFFF] {
+                            let mut cc = c.clone();
+                            cc["id"] = json!(format!("{}|{}={}&{}={}", id, fb.name, fv, f.name, v));
+                            cc["mode"] = json!(mode);
+                            cc["patch"] = json!([{"off": fb.off, "bytes": fv.to_le_bytes()}, {"off": f.off, "bytes": (v as u32).to_le_bytes()}]);
+                            cc["meta"] = json!({"gen": "g5a2", "fields": [fb.name, f.name], "values": [fv.to_string(), v.to_string()]});
+                            out.ev(&cc);
+                        }
+                    }
+                }
+            }
             "cuts" => {
                 let eof = enc.as_ref().map_or(bytes.len(), |e| e.end_of_frames);
                 out.ev(&json!({"id": id, "hex": hex_encode(&bytes), "eof": eof}));
